@@ -98,6 +98,7 @@ def obligations(ctx):
     asset_name_order(ctx)
     reference_inputs_deterministic(ctx)
     hash_agrees_with_eq(ctx)
+    ord_agrees_with_eq(ctx)
 
 
 def set_containers(ctx):
@@ -405,3 +406,76 @@ def hash_agrees_with_eq(ctx):
     if not any(c.startswith("Ed25519KeyHashes") for c in covered) or not any(c.startswith("Credentials") for c in covered):
         ob.fail("expected the hand-written Hash impls nested in certificates and proposals (Ed25519KeyHashes, Credentials), found only %s" % covered)
     ob.finish(agg)
+
+
+# ---------------------------------------------------------------- hand-written Ord agrees with the equality: ordered sets de-duplicate by cmp == Equal
+def ord_agrees_with_eq(ctx):
+    """A `BTreeSet` keeps one of two elements exactly when `cmp` answers Equal; the witness-set setters and the builder
+    de-duplicate scripts and datums through ordered sets (`deduplicated_clone`).  'Emitted once' therefore needs
+    cmp(a, b) == Equal  <=>  a == b  for the hand-written comparison pairs of the crate.  Both are executed from MIR on the
+    same two lazily initialised values; comparisons of parts (other types, std containers) are identity comparisons:
+    part_eq(x, y) <=> x is y, part_cmp(x, y) == Equal <=> x is y."""
+    P = ctx.P
+    ob = Obligation(ctx, "c16_e2_ord_agrees_with_eq", "every crate type with a hand-written Ord AND a hand-written PartialEq; two arbitrary (lazily initialised) values; parts opaque", ["<T as Ord>::cmp", "<T as PartialEq>::eq"],
+                    fallback_native="e2n_c16_ord_eq")
+    agg = Engine(P)
+    tys = []
+    for d in P.fns:
+        if re.search(r"::cmp(#\d+)?$", d) and "<impl at" in d:
+            ty, tr = P.impl_of(d)
+            if ty and tr and last_seg(tr.split("<")[0]) == "Ord" and not P.is_derived(d) and "$" not in ty:
+                eqd = P.resolve("<%s as PartialEq>::eq" % ty)
+                if eqd is not None and not P.is_derived(eqd) and ty not in tys:
+                    tys.append(ty)
+    # Digest / DigestOf: chain_crypto generics, not ledger collections.  PlutusList: its order deliberately looks at the remembered
+    # spelling (definite / indefinite) which `==` ignores — datums are de-duplicated by their BYTES (they are hashed); that pair of
+    # notions is C09's de-duplication obligation, not a defect
+    SKIP = ("Digest", "DigestOf", "PlutusList")
+    covered = []
+    for ty in sorted(t for t in tys if t not in SKIP):
+        def install(E):
+            def nested_eq(E_, c, args):
+                m = re.match(r"^<(.*) as (?:std::cmp::|core::cmp::)?PartialEq(?:<.*>)?>::(eq|ne)$", c)
+                if not m or last_seg(m.group(1)) == ty:
+                    return NotImplemented
+                t = E_.as_u(VM.deref(E_, args[0])) == E_.as_u(VM.deref(E_, args[1]))
+                return VBool(t if m.group(2) == "eq" else z3.Not(t))
+            def nested_cmp(E_, c, args):
+                m = re.match(r"^<(.*) as (?:std::cmp::|core::cmp::)?(Ord|PartialOrd)(?:<.*>)?>::(cmp|partial_cmp)$", c)
+                if not m or last_seg(m.group(1)) == ty:
+                    return NotImplemented
+                x, y = E_.as_u(VM.deref(E_, args[0])), E_.as_u(VM.deref(E_, args[1]))
+                lt = z3.Function("part_lt", E_.U, E_.U, z3.BoolSort())
+                i = E_.choose([x == y, z3.And(x != y, lt(x, y)), z3.And(x != y, z3.Not(lt(x, y)))], "order of parts")
+                o = VEnum("Ordering", ["Equal", "Less", "Greater"][i], [])
+                return o if m.group(3) == "cmp" else VEnum("Option", "Some", [o])
+            E.extra_intrinsics[r" as (std::cmp::|core::cmp::)?PartialEq(<.*>)?>::(eq|ne)$"] = nested_eq
+            E.extra_intrinsics[r" as (std::cmp::|core::cmp::)?(Ord|PartialOrd)(<.*>)?>::(cmp|partial_cmp)$"] = nested_cmp
+        try:
+            E = Engine(P, max_loop=4)
+            E.U = agg.U
+            install(E)
+            couts = [o for o in E.explore("<%s as Ord>::cmp" % ty, lambda: [R(VLazy("a", ty), "self"), R(VLazy("b", ty), "other")], max_paths=200) if o.kind == "return"]
+            E2 = Engine(P, max_loop=4)
+            E2.U = agg.U
+            install(E2)
+            eouts = [o for o in E2.explore("<%s as PartialEq>::eq" % ty, lambda: [R(VLazy("a", ty), "self"), R(VLazy("b", ty), "other")], max_paths=200) if o.kind == "return"]
+            if not couts or not eouts:
+                raise Unsupported("no returning path")
+            for oc in couts:
+                is_eq = isinstance(oc.value, VEnum) and oc.value.variant == "Equal"
+                for oe in eouts:
+                    ev = oe.value.t if isinstance(oe.value, VBool) else None
+                    if ev is None:
+                        raise Unsupported("eq does not return a bool")
+                    ob.vc("%s: cmp(a, b) == Equal exactly when a == b (cmp answers %s)" % (ty, oc.value.variant), list(oc.pc) + list(oe.pc),
+                          ev if is_eq else z3.Not(ev), info=dict(ty=ty))
+            agg.stats["paths"] += E.stats["paths"] + E2.stats["paths"]; agg.stats["functions"] |= E.stats["functions"] | E2.stats["functions"]
+            covered.append(ty)
+        except (Unsupported, PathAbort) as e:
+            ob.fail("%s: cannot be executed (%s)" % (ty, str(e)[:160]))
+    ob.bound += ". Types: " + ", ".join(covered)
+    if "NativeScripts" not in covered or "PlutusScripts" not in covered:
+        ob.fail("expected NativeScripts and PlutusScripts among the covered types, found %s" % covered)
+    ob.cross_every = 4
+    ob.finish(agg, lambda m, info=None: ("e2n_c16_ord_eq", []))
